@@ -259,7 +259,13 @@ func sioHistory(cfg fw.Config, rec *fw.Rec, i int) {
 	sort.Strings(mids)
 	ctx, cancel := context.WithCancel(context.Background())
 	defer cancel() // stops the timers this history may have created
-	c, _, err := siox.NewCrew(ctx, 50, 8, 8)
+	// the crew's step limit: a recorder needs exactly two steps per message, so under
+	// limit 2 every walk ends by the limit - its emissions count all the same
+	limit := []int{50, 2, 3}[(i/2)%3]
+	if limit == 2 {
+		rec.Bucket("sio_histories_under_a_step_limit_that_ends_every_walk")
+	}
+	c, _, err := siox.NewCrew(ctx, limit, 8, 8)
 	if err != nil {
 		rec.Inconclusive("crew: " + err.Error())
 		return
@@ -454,8 +460,8 @@ func sioHistory(cfg fw.Config, rec *fw.Rec, i int) {
 
 func Run(cfg fw.Config, rec *fw.Rec) {
 	log.SetOutput(io.Discard)
-	rec.Rule = "crews of 0-6 recorder machines (ids incl. look-alikes of service names and the empty id) x histories of 1-5 submitted messages whose 'emit' fields script up to 3 generations of routed and unrouted follow-ups; targets: absent, an id, an unknown id, '*', lists with unknown / repeated / non-string members, the empty list, captain / timers; some messages carry crew-op or timer-request payloads that a wrongly addressed service machine would act on; in every second history crew operations addressed to the captain - submitted or emitted by recorders - hire, replace and fire recorders while messages to them are in flight (hire-then-talk, talk-then-hire, hire-talk-fire-talk within one emission batch), and the model's membership changes at the point of the breadth-first order where the captain is presented with the operation; the routing reference model replays Result.Emitted (breadth-first, per-machine emission order, every batch consumed exactly) and predicts every machine's log as a sequence; non-trivial = history with >= 2 deliveries; distinct by (machines, history)"
-	rec.Required = []string{"sio_messages_checked", "sio_histories_with_deliveries", "sio_empty_crew", "sio_machine_hired_during_processing", "sio_machine_fired_during_processing", "sio_delivery_to_machine_hired_in_this_history"}
+	rec.Rule = "crews (step limit 50, 3 or 2 - the last ends every recorder walk by the limit) of 0-6 recorder machines (ids incl. look-alikes of service names and the empty id) x histories of 1-5 submitted messages whose 'emit' fields script up to 3 generations of routed and unrouted follow-ups; targets: absent, an id, an unknown id, '*', lists with unknown / repeated / non-string members, the empty list, captain / timers; some messages carry crew-op or timer-request payloads that a wrongly addressed service machine would act on; in every second history crew operations addressed to the captain - submitted or emitted by recorders - hire, replace and fire recorders while messages to them are in flight (hire-then-talk, talk-then-hire, hire-talk-fire-talk within one emission batch), and the model's membership changes at the point of the breadth-first order where the captain is presented with the operation; the routing reference model replays Result.Emitted (breadth-first, per-machine emission order, every batch consumed exactly) and predicts every machine's log as a sequence; non-trivial = history with >= 2 deliveries; distinct by (machines, history)"
+	rec.Required = []string{"sio_messages_checked", "sio_histories_with_deliveries", "sio_empty_crew", "sio_machine_hired_during_processing", "sio_machine_fired_during_processing", "sio_delivery_to_machine_hired_in_this_history", "sio_histories_under_a_step_limit_that_ends_every_walk"}
 	rec.Assume = []string{"numbers / objects as routing targets are defined by neither code nor documentation and are recorded, not judged", "machine order within a round is unspecified: batches of one round are matched as a multiset and re-queued in the observed order"}
 	n := cfg.Pick(3000, 50000)
 	fw.Parallel(cfg.Workers, n, func(w, i int) { sioHistory(cfg, rec, i) })
